@@ -229,6 +229,9 @@ type LentImpl struct {
 	ActivateYields int
 	// SelfDoom: the object terminates itself from within Activate
 	SelfDoom bool
+	// TermRemovesNest: the termination hook removes the child the object
+	// created (a parent that takes its child down with it)
+	TermRemovesNest bool
 	// SlowMs: echo takes that many simulated milliseconds
 	SlowMs int
 	// RefuseEvery > 0: echo answers one token in RefuseEvery with an error
@@ -270,8 +273,14 @@ func (l *LentImpl) Activate(a bus.Activation, h probe.LentSignalHelper) error {
 func (l *LentImpl) OnTerminate() {
 	l.mu.Lock()
 	l.terms++
+	svc, nest, doit := l.Act.Service, l.NestID, l.TermRemovesNest && l.NestErr == nil
 	l.mu.Unlock()
 	zzsim.Event("lent object %d terminated", l.Obj)
+	if doit && svc != nil && nest != 0 {
+		// (the child may be gone already: that is not the parent's business)
+		svc.Remove(nest)
+		l.Env.Probe("client-hosted-parents-removing-their-child")
+	}
 }
 
 // Activated returns the identifier the object was activated with.
